@@ -17,6 +17,7 @@ def instances(tier):
     out.append((L, 'VH_C11_length_bounds', [], {}))
     for (a, b) in ([(0, 0), (1, 4), (4, 0)] if tier == 'quick' else [(0, 0), (1, 4), (4, 0), (16, 16), (61, 3)]):
         out.append((L, 'VH_C11_two_packets', [a, b], {'weight': a + b + 1}))
+    out.append((L, 'VH_C11_params_layout', [], {}))
     for extra in ([0, 5] if tier == 'quick' else [0, 1, 5, 68, 200]):
         out.append((L, 'VH_C11_handshake_consumes', [extra], {'weight': 5}))
     return out
@@ -24,7 +25,7 @@ def instances(tier):
 
 CHECK = dict(
     id='C11', pkgs=['liteclient'], init_pkgs=['std:io', 'std:bufio'], nostop=['bufio'], instances=instances, opts={'budget_s': 1200, 'hash_injective': True},
-    level_text='Packet.marshal/size/hash/MagicType and ParsePacket executed symbolically for all payload and nonce contents at the stated payload lengths: exact frame layout, marshal/parse round trip through arbitrary continuous key streams, stream continuity across two packets, rejection of every single-byte corruption (position >= 4) and every truncation, rejection of every length field outside 64..8MiB.  Handshake (encryptedConn.handshake on a harness net.Conn, AES-CTR ideal, arbitrary keys/parameters/receiving key stream): exactly the 68 bytes of the confirmation frame are taken from the connection - bytes the server sent after it stay available to the packet reader - and the 256-byte request carries our public key at offset 32.',
+    level_text='Packet.marshal/size/hash/MagicType and ParsePacket executed symbolically for all payload and nonce contents at the stated payload lengths: exact frame layout, marshal/parse round trip through arbitrary continuous key streams, stream continuity across two packets, rejection of every single-byte corruption (position >= 4) and every truncation, rejection of every length field outside 64..8MiB.  Handshake (encryptedConn.handshake on a harness net.Conn, AES-CTR ideal, arbitrary keys/parameters/receiving key stream): exactly the 68 bytes of the confirmation frame are taken from the connection - bytes the server sent after it stay available to the packet reader - and the 256-byte request carries our public key at offset 32; the session parameter accessors return rx key | tx key | rx nonce | tx nonce | padding = bytes 0..32..64..80..96..160 and hash() is SHA-256 of all 160 bytes.',
     level_note='SHA-256 is an ideal hash (uninterpreted function with collision freedom); the stream cipher is an arbitrary XOR key stream supplied by the harness (cipher.Stream interface). AES-CTR is an ideal stream cipher (uninterpreted key stream); X25519 and dialing are outside this check (see outside_claim).',
     bounds={'quick': {'payload bytes': [0, 1, 4, 61]}, 'thorough': {'payload bytes': [0, 1, 2, 3, 4, 5, 31, 32, 33, 61, 64, 128, 256]}},
     assumptions=['a corruption of the LENGTH field that shortens the frame is excluded: accepting it would need the payload to embed the checksum of its own prefix (probability 2^-256 for honest payloads)'],
